@@ -142,6 +142,12 @@ impl Writer {
         let build = &graph.builds[id];
         let mut w = RecordWriter::default();
         let outs = build.outs();
+        if outs.len() > 0x7fff || build.discovered_ins().len() > 0xffff {
+            // The counts do not fit the record format.  Don't record the
+            // build (it will just be considered dirty next time) rather than
+            // write a record that is misread together with everything after it.
+            return Ok(());
+        }
         let mark = (outs.len() as u16) | 0b1000_0000_0000_0000;
         w.write_u16(mark);
         for &out in outs {
